@@ -18,6 +18,7 @@ mod c07;
 mod c08;
 mod c10;
 mod c12;
+mod c18;
 
 fn main() {
     let args: Vec<String> = std::env::args().collect();
@@ -43,6 +44,7 @@ fn main() {
         "C07" => { c07::cases(&mut ctx); c07::preds(&mut ctx); }
         "C08" => { c08::cases(&mut ctx); c08::preds(&mut ctx); }
         "C10" => { c10::cases(&mut ctx); c10::preds(&mut ctx); }
+        "C18" => { c18::cases(&mut ctx); c18::preds(&mut ctx); }
         "C12" => { c12::cases(&mut ctx); c12::preds(&mut ctx); }
         "C03" => { c03::cases(&mut ctx); c03::preds(&mut ctx); }
         _ => { eprintln!("unknown property {}", prop); std::process::exit(2); }
